@@ -1,8 +1,8 @@
 """Known findings: genuine defects of the pinned tree that are recorded rather than repaired.
 
 The file /verif/known_findings.json is read-only at run time.  An entry with status "known"
-matches a violation iff property and clause are equal and the entry's signature (a regular
-expression, anchored) matches the violation's signature.  Entries with status "fixed" are
+matches a violation iff the property is equal and the entry's clause and signature (regular
+expressions, anchored) match the violation's clause and signature.  Entries with status "fixed" are
 documentation only and match nothing.
 """
 
@@ -28,7 +28,7 @@ def match(entries: list[dict], prop: str, clause: str, signature: str) -> dict |
     for e in entries:
         if e.get("status") != "known":
             continue
-        if e.get("property") != prop or e.get("clause") != clause:
+        if e.get("property") != prop or not re.fullmatch(e.get("clause", ""), clause):
             continue
         if re.fullmatch(e["signature"], signature):
             return e
